@@ -28,14 +28,18 @@ Definition tok_ok (t : rtok) : Prop :=
   match t with
   | TNamed e => simple_escape e <> None
   | TDig d => (1 <= length d <= 3)%nat /\ Forall (fun c => is_dec c = true) d
-  | THex d => (1 <= length d <= 2)%nat /\ Forall (fun c => is_hex c = true) d
+  | THex d => (1 <= length d)%nat /\ Forall hexb d
   end.
+(* after the long-x fix-up every hex escape has one or two digits *)
+Definition tok_short (t : rtok) : Prop :=
+  match t with THex d => (length d <= 2)%nat | _ => True end.
 Definition tok_bad (t : rtok) : bool :=
   match t with
   | TDig (d1 :: r) => bad_at d1 r
   | _ => false
   end.
 Definition tpad (t : rtok) : rtok := match t with THex [a] => THex [48; a] | _ => t end.
+Definition tlong (t : rtok) : rtok := match t with THex (a :: b :: d) => THex (last2 (a :: b :: d)) | _ => t end.
 Definition toks_text (l : list rtok) : list N := flat_map tok_text l.
 
 Definition max_dig (t : rtok) (rest : list N) : Prop :=
@@ -59,21 +63,20 @@ Proof.
               ** exists (TDig [e; a; b]), r2. cbn. repeat split; auto; lia.
               ** exists (TDig [e; a]), (b :: r2). cbn. repeat split; auto; try lia; try (intros _; unfold nth_is; cbn; assumption).
         -- intros H; inversion H; subst. exists (TDig [e]), (a :: r1). cbn. repeat split; auto; try lia; try (intros _; unfold nth_is; cbn; assumption).
-    + destruct (N.eqb_spec e LX) as [->|]; [|discriminate]. unfold LX.
-      destruct r as [|a r1]; cbn [nth_error]; [discriminate|].
-      destruct (is_hex a) eqn:Ea; [|discriminate].
-      destruct r1 as [|b r2]; cbn [nth_error].
-      * intros H; inversion H; subst. exists (THex [a]), []. cbn. repeat split; auto; lia.
-      * destruct (is_hex b) eqn:Eb; intros H; inversion H; subst.
-        -- exists (THex [a; b]), r2. cbn. repeat split; auto; lia.
-        -- exists (THex [a]), (b :: r2). cbn. repeat split; auto; lia.
+    + destruct (N.eqb_spec e LX) as [->|]; [|discriminate]. unfold LX. cbn [skipn].
+      destruct (hex_span_firstn r) as [Hh Hl].
+      destruct (hex_span r) as [|n] eqn:Eh; [discriminate|].
+      intros H; inversion H; subst. exists (THex (firstn (S n) r)), (skipn (S n) r).
+      cbn [tok_ok tok_text max_dig]. rewrite Hl. repeat split; auto; try lia.
+      * cbn [app]. now rewrite firstn_skipn.
+      * cbn [length]. now rewrite Hl.
 Qed.
 
 (* ---------------------------------------------------------------- the fix-up on a run *)
 Lemma dec_nonbs d : Forall (fun c => is_dec c = true) d -> Forall (fun c => c <> 92) d.
 Proof. apply Forall_impl. unfold is_dec, between. intros; lia. Qed.
-Lemma hexb_nonbs d : Forall (fun c => is_hex c = true) d -> Forall (fun c => c <> 92) d.
-Proof. apply Forall_impl. unfold is_hex, between. intros; lia. Qed.
+Lemma hexb_nonbs d : Forall hexb d -> Forall (fun c => c <> 92) d.
+Proof. exact (hexb_nonbs_ d). Qed.
 
 Lemma tok_text_cons t : exists tl, tok_text t = 92 :: tl.
 Proof. destruct t; cbn; eauto. Qed.
@@ -81,9 +84,44 @@ Proof. destruct t; cbn; eauto. Qed.
 Lemma toks_run_tail l : run_tail (toks_text l).
 Proof. destruct l as [|t l]; [now left|]. right. unfold toks_text. cbn [flat_map]. destruct (tok_text_cons t) as [tl ->]. eexists. reflexivity. Qed.
 
-Lemma fixup_tok t s : tok_ok t -> run_tail s -> fixup (tok_text t ++ s) 0 = tok_text (tpad t) ++ fixup s 0.
+(* the long-x fix-up on one token *)
+Lemma fixup_long_tok t s : tok_ok t -> run_tail s -> fixup_long (tok_text t ++ s) 0 = tok_text (tlong t) ++ fixup_long s 0.
 Proof.
-  intros Hok Hs. destruct t as [e | d | d]; cbn [tok_text tok_ok tpad] in *.
+  intros Hok Hs. destruct t as [e | d | d]; cbn [tok_text tok_ok tlong] in *.
+  - cbn [app]. apply fixup_long_pair; [|assumption]. intros ->. apply Hok. reflexivity.
+  - destruct Hok as (_ & Hd). cbn [app]. apply fixup_long_digits; [|assumption].
+    eapply Forall_impl; [|exact Hd]. cbn. unfold is_dec, between. intros; lia.
+  - destruct Hok as (Hlen & Hd). destruct d as [|a [|b' d']]; [cbn in Hlen; lia| |].
+    + inversion Hd; subst. cbn [app]. now apply fixup_long_hex1.
+    + change (fixup_long (92 :: 120 :: (a :: b' :: d') ++ s) 0 = 92 :: 120 :: last2 (a :: b' :: d') ++ fixup_long s 0).
+      apply fixup_long_hex; [assumption|cbn [length]; lia|assumption].
+Qed.
+
+Lemma fixup_long_toks : forall l, Forall tok_ok l -> fixup_long (toks_text l) 0 = toks_text (map tlong l).
+Proof. induction l as [|t l IH]; intros Hok; [reflexivity|]. inversion Hok; subst. unfold toks_text in *. cbn [flat_map map].
+  rewrite fixup_long_tok; [|assumption|apply toks_run_tail]. f_equal. now apply IH. Qed.
+
+Lemma tlong_ok t : tok_ok t -> tok_ok (tlong t) /\ tok_short (tlong t) /\ tok_bad (tlong t) = tok_bad t.
+Proof.
+  destruct t as [e | d | d]; cbn [tlong tok_ok tok_short tok_bad]; try tauto.
+  intros (Hlen & Hd). destruct d as [|a [|b' d']].
+  - cbn [length] in Hlen. lia.
+  - cbn [tlong tok_ok tok_short tok_bad length]. repeat split; auto; lia.
+  - cbn [tlong tok_ok tok_short tok_bad]. rewrite last2_length by (cbn [length]; lia).
+    repeat split; try lia. now apply Forall_skipn_.
+Qed.
+
+Lemma tlong_all l : Forall tok_ok l ->
+  Forall tok_ok (map tlong l) /\ Forall tok_short (map tlong l) /\ existsb tok_bad (map tlong l) = existsb tok_bad l.
+Proof.
+  induction 1 as [|t l Ht _ (IH1 & IH2 & IH3)]; [repeat split; constructor|].
+  destruct (tlong_ok t Ht) as (H1 & H2 & H3). cbn [map existsb]. repeat split; try (constructor; assumption).
+  now rewrite H3, IH3.
+Qed.
+
+Lemma fixup_tok t s : tok_ok t -> tok_short t -> run_tail s -> fixup (tok_text t ++ s) 0 = tok_text (tpad t) ++ fixup s 0.
+Proof.
+  intros Hok Hsh Hs. destruct t as [e | d | d]; cbn [tok_text tok_ok tpad] in *.
   - cbn [app]. cbn [fixup].
     assert (HSX : short_x_at (92 :: e :: s) = false).
     { unfold short_x_at, nth_is. cbn [nth_error]. destruct (N.eqb_spec LX e) as [<-|]; [|now rewrite andb_false_r].
@@ -99,8 +137,8 @@ Proof.
       - destruct Hs as [-> | [r ->]]; reflexivity.
       - inversion Hd; subst. destruct (N.eqb_spec LX a) as [<-|]; [discriminate|]. now rewrite andb_false_r. }
     rewrite HSX. f_equal. apply fixup_copy. now apply dec_nonbs.
-  - destruct Hok as (Hlen & Hd).
-    destruct d as [|a [|b' [|? ?]]]; cbn [length] in Hlen; try lia;
+  - destruct Hok as (Hlen & Hd). cbn [tok_short] in Hsh. unfold hexb in Hd.
+    destruct d as [|a [|b' [|? ?]]]; cbn [length] in Hlen, Hsh; try lia;
       repeat match goal with H : Forall _ (_ :: _) |- _ => inversion H; subst; clear H end.
     + cbn [app fixup].
       assert (HSX : short_x_at (92 :: 120 :: a :: s) = true).
@@ -115,9 +153,9 @@ Proof.
       rewrite HSX. f_equal. rewrite !short_x_nonbs by (assumption || discriminate). reflexivity.
 Qed.
 
-Lemma fixup_toks : forall l, Forall tok_ok l -> fixup (toks_text l) 0 = toks_text (map tpad l).
-Proof. induction l as [|t l IH]; intros Hok; [reflexivity|]. inversion Hok; subst. unfold toks_text in *. cbn [flat_map map].
-  rewrite fixup_tok; [|assumption|apply toks_run_tail]. f_equal. now apply IH. Qed.
+Lemma fixup_toks : forall l, Forall tok_ok l -> Forall tok_short l -> fixup (toks_text l) 0 = toks_text (map tpad l).
+Proof. induction l as [|t l IH]; intros Hok Hsh; [reflexivity|]. inversion Hok; subst. inversion Hsh; subst. unfold toks_text in *. cbn [flat_map map].
+  rewrite fixup_tok; [|assumption|assumption|apply toks_run_tail]. f_equal. now apply IH. Qed.
 
 (* ---------------------------------------------------------------- evaluation of the literal *)
 Definition plain (c : N) : Prop := c <> 92 /\ c <> 39 /\ c <> 10 /\ c <> 13 /\ c < 128.
@@ -169,10 +207,10 @@ Proof. unfold is_dec, between, simple_escape, LX. intros H.
   repeat match goal with |- context [N.eqb a ?k] => destruct (N.eqb_spec a k); [lia|] end. auto. Qed.
 
 (* the value is irrelevant here: some bytes, and the warning flag *)
-Lemma eval_tok t s b w : tok_ok t -> run_tail s -> bytes_eval s 0 = Ok (b, w) ->
+Lemma eval_tok t s b w : tok_ok t -> tok_short t -> run_tail s -> bytes_eval s 0 = Ok (b, w) ->
   exists bs, bytes_eval (tok_text (tpad t) ++ s) 0 = Ok (bs ++ b, tok_bad t || w).
 Proof.
-  intros Hok Hs Hrest. destruct t as [e | d | d]; cbn [tok_text tok_ok tpad tok_bad] in *.
+  intros Hok Hsh Hs Hrest. destruct t as [e | d | d]; cbn [tok_text tok_ok tpad tok_bad] in *.
   - destruct (simple_escape e) as [v|] eqn:Es; [|congruence]. destruct (simple_not_special e v Es) as [H39 H10].
     cbn [app]. rewrite bytes_eval_cons0. change (N.eqb 92 BSL) with true. cbv iota. rewrite H39, H10, Es.
     change (bytes_eval (e :: s) 1) with (bytes_eval s 0). rewrite Hrest. exists [v]. reflexivity.
@@ -241,18 +279,20 @@ Proof.
       change (N.eqb 120 LX) with true. cbv iota. unfold nth_is. cbn [nth_error nth]. rewrite Ha, Hb. cbn [andb].
       change (bytes_eval (120 :: a :: b' :: s) 3) with (bytes_eval s 0). rewrite Hrest. cbn [obind fst snd].
       eexists [_]. reflexivity. }
-    destruct d as [|a [|b' [|? ?]]]; cbn [length] in Hlen; try lia;
+    cbn [tok_short] in Hsh. unfold hexb in Hd.
+    destruct d as [|a [|b' [|? ?]]]; cbn [length] in Hlen, Hsh; try lia;
       repeat match goal with H : Forall _ (_ :: _) |- _ => inversion H; subst; clear H end; cbn [tpad tok_text app orb].
     + apply Hpy; [reflexivity|assumption].
     + apply Hpy; assumption.
 Qed.
 
-Lemma eval_toks : forall l, Forall tok_ok l ->
+Lemma eval_toks : forall l, Forall tok_ok l -> Forall tok_short l ->
   exists bs, bytes_eval (toks_text (map tpad l)) 0 = Ok (bs, existsb tok_bad l).
 Proof.
-  induction l as [|t l IH]; intros Hok; [exists []; reflexivity|]. inversion Hok as [|? ? Ht Hl]; subst.
-  destruct (IH Hl) as [bs Hbs]. unfold toks_text in *. cbn [flat_map map existsb].
-  destruct (eval_tok t _ bs (existsb tok_bad l) Ht (toks_run_tail (map tpad l)) Hbs) as [bs' E].
+  induction l as [|t l IH]; intros Hok Hsh; [exists []; reflexivity|]. inversion Hok as [|? ? Ht Hl]; subst.
+  inversion Hsh as [|? ? Hst Hsl]; subst.
+  destruct (IH Hl Hsl) as [bs Hbs]. unfold toks_text in *. cbn [flat_map map existsb].
+  destruct (eval_tok t _ bs (existsb tok_bad l) Ht Hst (toks_run_tail (map tpad l)) Hbs) as [bs' E].
   exists (bs' ++ bs). exact E.
 Qed.
 
@@ -260,7 +300,8 @@ Qed.
 Lemma unescape_run_total dec l : Forall tok_ok l ->
   (exists t, unescape_run dec (toks_text l) = Ok (t, existsb tok_bad l)) \/ unescape_run dec (toks_text l) = Err EDecode.
 Proof.
-  intros Hok. unfold unescape_run. rewrite fixup_toks by assumption. destruct (eval_toks l Hok) as [bs ->].
+  intros Hok. unfold unescape_run. destruct (tlong_all l Hok) as (H1 & H2 & H3).
+  rewrite fixup_long_toks, fixup_toks by assumption. destruct (eval_toks _ H1 H2) as [bs ->]. rewrite H3.
   cbn [lift_crash obind fst snd]. unfold decode_run. destruct (forallb (fun c => c <? 128) bs); [left; eexists; reflexivity|].
   destruct (dec bs); [left; eexists; reflexivity|right; reflexivity].
 Qed.
